@@ -517,7 +517,7 @@ def gen(rng, shard, nshards, names, n_per_field, n_binary):
     return vary_forms(cases, rng)
 
 
-QUICK_CONFIGS = ["default", "m51", "w32"]
+QUICK_CONFIGS = ["default", "m51", "w32", "clmul", "avx2"]
 
 
 def main(argv):
